@@ -1392,26 +1392,42 @@ def run_C20(tier, rng, chk):
             res.append(fam("build %s" % v, [], None, counts={},
                            extra_violations=[{"kind": "build", "found_input": False, "family": "build " + v,
                                               "detail": "configuration %s does not build: %s" % (v, ex.detail[-1500:])}]))
-    base = set((d.get("script"), d.get("op"), d.get("key")) for d in outs.get("hu", {"div": []})["div"])
+    # a divergence from the model is not by itself a difference BETWEEN configurations (a change
+    # to shared logic shows in all four); it is recorded as coverage, the decision is made by the
+    # cross-build comparison below
     for v in ("hn", "xu", "xn"):
         if v not in outs:
             continue
         extra = []
-        for d in outs[v]["div"]:
-            if (d.get("script"), d.get("op"), d.get("key")) not in base:
-                extra.append({"kind": "divergence", "detail": d, "family": "build %s vs model" % v, "stream": hist, "variant": v, "observer": "-",
-                              "found_input": True, "keys": [d.get("key")]})
         for c in outs[v]["crash"]:
             if not outs.get("hu", {"crash": []})["crash"]:
                 extra.append({"kind": "crash", "detail": c, "family": "build %s vs model" % v, "found_input": False})
-        res.append(fam("build %s vs the model for its character width (divergences not shown by the default build)" % v, hist, outs[v], variant=v,
-                       extra_violations=extra[:3]))
+        res.append(fam("build %s vs the model for its character width" % v, hist, outs[v], variant=v, extra_violations=extra[:3]))
     if "hu" in outs:
         res.append(fam("build hu vs the unicode model (reference for the comparison above)", hist, outs["hu"], variant="hu"))
     # (2) cross-build identity on the implementation alone
     wd = os.path.join(chk.OUTDIR, "c20_%d" % os.getpid())
     os.makedirs(wd, exist_ok=True)
     cf_hist = [("c20_cf_%d" % i, collision_free_history(rng, scale(tier, 120, 200))) for i in range(scale(tier, 80, 500))]
+    for i in range(scale(tier, 80, 500)):
+        special = rng.choice([None, rng.randrange(0x7F, 0x100), rng.randrange(0x7F, 0x100)])
+        pool = ([special] * 3 if special is not None else [0x20, 0x20]) + [0x41, 0x42, 0x7E, 0x0D, 0x1F, 0x00, 0x61]
+        L = ["0 I %d" % rng.choice([0, 255])] + ["0 R %d 1" % f for f in (8, 9, 10)]
+        for t in range(3):
+            L += ["0 T %d 0 %d" % (t, rng.choice([0, 1, 2, 2])), "0 T %d 1 %d" % (t, rng.choice([0, 1, 2, 2])), "0 G %d %d" % (t, rng.randrange(2))]
+        fl = rng.randrange(2)
+        for _ in range(scale(tier, 100, 160)):
+            if rng.random() < 0.03:
+                L.append("0 C")
+                continue
+            if rng.random() < 0.08:
+                fl ^= 1
+            kind = rng.choice(["0A", "0B", "2A", "2B", "10A"])
+            c = (rng.choice(pool) << 8) | rng.choice(pool)
+            d = (rng.choice(pool) << 8) | rng.choice(pool)
+            e = (0, rng.choice([0, 0, 1, 2, 3]), rng.choice([0, 0, 1, 2, 3]), rng.choice([0, 0, 1, 2, 3]))
+            L.append(P(0, *text_group(rng, kind, rng.choice([0, 1]), fl, c, d), e))
+        cf_hist.append(("c20_cfh_%d" % i, L))
     p = os.path.join(wd, "cf.script")
     streams.write_stream(p, cf_hist)
     traces = {}
